@@ -84,10 +84,21 @@ def _check(prop, tier, only) -> int:
         return 2
 
     def fn(ctx):
-        mod.run(ctx)
         from . import shared
+        from .core import AnalysisError as _AE
 
-        shared.apply(ctx, prop)
+        stopped = None
+        try:
+            mod.run(ctx)
+        except _AE as e:
+            stopped = e  # the shared rules may still explain why (e.g. a construct outside the kernel fragment): run them, then re-raise
+        try:
+            shared.apply(ctx, prop)
+        except _AE:
+            if stopped is None:
+                raise
+        if stopped is not None:
+            raise stopped
         if only is not None:
             ctx.findings = [f for f in ctx.findings if f.key == only]
         if tier == "thorough" and only is None and not os.environ.get("VERIF_NO_SELFTEST") and not os.environ.get("VERIF_NO_EVIDENCE"):
